@@ -167,6 +167,9 @@ func mutate(fset *token.FileSet, f *ast.File, k int) (meta, bool) {
 				return false
 			}
 		case *ast.BinaryExpr:
+			if os.Getenv("MUT2") != "" {
+				break
+			}
 			for _, to := range swaps[x.Op] {
 				if hit(x.OpPos, "binop", x.Op.String()+" → "+to.String()) {
 					x.Op = to
@@ -174,7 +177,7 @@ func mutate(fset *token.FileSet, f *ast.File, k int) (meta, bool) {
 				}
 			}
 		case *ast.BasicLit:
-			if x.Kind == token.INT {
+			if x.Kind == token.INT && os.Getenv("MUT2") == "" {
 				if v, err := strconv.ParseInt(x.Value, 0, 64); err == nil {
 					if hit(x.Pos(), "int+1", x.Value+" → "+strconv.FormatInt(v+1, 10)) {
 						x.Value = strconv.FormatInt(v+1, 10)
@@ -189,7 +192,7 @@ func mutate(fset *token.FileSet, f *ast.File, k int) (meta, bool) {
 				}
 			}
 		case *ast.Ident:
-			if x.Name == "true" || x.Name == "false" {
+			if (x.Name == "true" || x.Name == "false") && os.Getenv("MUT2") == "" {
 				if hit(x.Pos(), "bool", x.Name+" flipped") {
 					if x.Name == "true" {
 						x.Name = "false"
@@ -199,13 +202,58 @@ func mutate(fset *token.FileSet, f *ast.File, k int) (meta, bool) {
 					return false
 				}
 			}
+		case *ast.CallExpr:
+			if os.Getenv("MUT2") != "" {
+				for i := 0; i+1 < len(x.Args); i++ {
+					if hit(x.Args[i].Pos(), "swap-args", fmt.Sprintf("arguments %d and %d swapped", i+1, i+2)) {
+						x.Args[i], x.Args[i+1] = x.Args[i+1], x.Args[i]
+						return false
+					}
+				}
+			}
+		case *ast.SliceExpr:
+			if os.Getenv("MUT2") != "" {
+				for k, b := range []*ast.Expr{&x.Low, &x.High} {
+					if *b == nil {
+						continue
+					}
+					if hit((*b).Pos(), "slice+1", fmt.Sprintf("slice bound %d plus one", k)) {
+						*b = &ast.BinaryExpr{X: &ast.ParenExpr{X: *b}, Op: token.ADD, Y: &ast.BasicLit{Kind: token.INT, Value: "1"}}
+						return false
+					}
+				}
+			}
+		case *ast.IndexExpr:
+			if os.Getenv("MUT2") != "" {
+				if hit(x.Index.Pos(), "index+1", "index plus one") {
+					x.Index = &ast.BinaryExpr{X: &ast.ParenExpr{X: x.Index}, Op: token.ADD, Y: &ast.BasicLit{Kind: token.INT, Value: "1"}}
+					return false
+				}
+			}
 		case *ast.IfStmt:
+			if os.Getenv("MUT2") != "" && x.Else != nil {
+				if hit(x.Else.Pos(), "drop-else", "else branch removed") {
+					x.Else = nil
+					return false
+				}
+			}
+			if os.Getenv("MUT2") != "" {
+				if len(x.Body.List) == 1 {
+					if _, isRet := x.Body.List[0].(*ast.ReturnStmt); isRet {
+						if hit(x.Body.Pos(), "drop-early-return", "early return removed") {
+							x.Body.List = nil
+							return false
+						}
+					}
+				}
+				break
+			}
 			if hit(x.Cond.Pos(), "negate-if", "if condition negated") {
 				x.Cond = &ast.UnaryExpr{Op: token.NOT, X: &ast.ParenExpr{X: x.Cond}}
 				return false
 			}
 		case *ast.UnaryExpr:
-			if x.Op == token.NOT {
+			if x.Op == token.NOT && os.Getenv("MUT2") == "" {
 				if hit(x.Pos(), "drop-not", "! removed") {
 					x.Op = token.ADD // +x is not valid for bool; use a paren instead
 					*x = ast.UnaryExpr{Op: token.NOT, X: &ast.UnaryExpr{Op: token.NOT, X: x.X}}
@@ -213,12 +261,24 @@ func mutate(fset *token.FileSet, f *ast.File, k int) (meta, bool) {
 				}
 			}
 		case *ast.BlockStmt:
-			visitStmts(&x.List)
+			if os.Getenv("MUT2") == "" {
+				visitStmts(&x.List)
+			}
 		case *ast.CaseClause:
-			visitStmts(&x.Body)
+			if os.Getenv("MUT2") == "" {
+				visitStmts(&x.Body)
+			}
 		case *ast.CommClause:
-			visitStmts(&x.Body)
+			if os.Getenv("MUT2") == "" {
+				visitStmts(&x.Body)
+			}
 		case *ast.ReturnStmt:
+			if os.Getenv("MUT2") != "" && len(x.Results) == 2 {
+				if hit(x.Pos(), "swap-results", "results swapped") {
+					x.Results[0], x.Results[1] = x.Results[1], x.Results[0]
+					return false
+				}
+			}
 			for i, r := range x.Results {
 				if id, ok := r.(*ast.Ident); ok && id.Name == "nil" && i == len(x.Results)-1 {
 					_ = id
